@@ -68,14 +68,16 @@ def _c11_wide(args):
 
 
 S = lambda a: ''.join(chr(c) for c in a)
-RROUTES = ['dtype-default', 'dtype-Q', 'get_dtype(fxp)|fxp', 'get_dtype(Q)|fxp', 'get_dtype(fxp)|Q', 'get_dtype(Q)|Q', 'get_dtype()|Q', 'get_dtype()|fxp']
+RROUTES = ['dtype-default', 'dtype-Q', 'get_dtype(fxp)|fxp', 'get_dtype(Q)|fxp', 'get_dtype(fxp)|Q', 'get_dtype(Q)|Q', 'get_dtype()|Q', 'get_dtype()|fxp',
+           'get_dtype(fxp)|fxp|after(Q)', 'get_dtype()|fxp|after(Q)', 'get_dtype(Q)|Q|after(fxp)', 'get_dtype()|Q|after(fxp)', 'get_dtype(Q)|fxp|after(fxp)',
+           'get_dtype(fxp)|Q|after(Q)', 'get_dtype()|Q|reconf', 'get_dtype()|fxp|reconf', 'get_dtype(Q)|Q|reconf', 'get_dtype(fxp)|fxp|reconf']
 
 
 def _c12_rows(fx, np, pid, t, strings, rng=None, full=True):
     out = []
     m_ok = t[1] - t[2] >= 0
     for route in RROUTES:
-        if 'Q' in route.split('|')[0].replace('get_dtype()', '') or route in ('dtype-Q', 'get_dtype()|Q'):
+        if 'Q' in route:          # (any Q rendering, asked for or made on the way)
             if not m_ok:
                 continue            # Q notation is stated whenever m = n_word - n_frac >= 0
         out.append(x_text.observe_dtype_render(fx, np, [pid], t, False, route))
@@ -85,7 +87,7 @@ def _c12_rows(fx, np, pid, t, strings, rng=None, full=True):
     for spelling, st, cplx in strings:
         if not st:
             continue
-        for route in ('ctor', 'resize', 'ctor-val'):
+        for route in ('ctor', 'resize', 'ctor-val', 'resize-same'):
             if cplx and t[1] > 52:
                 continue
             out.append(x_text.observe_dtype_parse(fx, np, [pid], t, cplx, st, spelling, route))
